@@ -1278,7 +1278,7 @@ func c09Gen(r *rand.Rand, tier string) []string {
 	out := matrix()
 	n, nMal, nCanon := 2200, 300, 500
 	if tier == "thorough" {
-		n, nMal, nCanon = 60000, 8000, 20000
+		n, nMal, nCanon = 50000, 6000, 15000
 		out = append(out, enumHeaders()...)
 		out = append(out, enumConns(2, 4)...)
 		out = append(out, enumConns(3, 3)...)
